@@ -50,6 +50,7 @@ type Unit struct {
 	cellStatic map[string]Val
 	hyps      []hyp
 	ghostSyms []string
+	entryHeld map[string][]string
 	witnesses []string
 	collectW  bool
 	skReuse   []string
@@ -60,7 +61,7 @@ type Unit struct {
 }
 
 func newUnit(eng *Engine, name string, mode Mode) *Unit {
-	u := &Unit{eng: eng, Name: name, mode: mode, declared: map[string]bool{}, keySort: map[string]string{}, kindCount: map[string]int{}, Notes: map[string]bool{}, specDone: map[string]*compiledSpec{}, freshRefs: map[string]bool{}, keyElem: map[string]types.Type{}}
+	u := &Unit{eng: eng, Name: name, mode: mode, declared: map[string]bool{}, keySort: map[string]string{}, kindCount: map[string]int{}, Notes: map[string]bool{}, specDone: map[string]*compiledSpec{}, entryHeld: map[string][]string{}, freshRefs: map[string]bool{}, keyElem: map[string]types.Type{}}
 	u.safety = map[string]bool{"index": true, "slice": true, "div": true, "makelen": true, "typeassert": true, "overflow": !mode.BV, "nil": false, "panic": true, "shift": true}
 	u.prelude()
 	return u
